@@ -44,24 +44,25 @@ JudgeObs04(exp, trees, cyclic, k) ==
             ELSE JudgeObs04(exp, trees, cyclic, k + 1)
 
 \* ---- plain BNF grammars, cyclic ones included: every tree of the expansion is a derivation tree of the input ----
-RECURSIVE LeavesOf(_), ValidNode(_, _)
+RECURSIVE LeavesOf(_), ValidNode(_, _, _)
 LeavesOf(t) == IF t[1] # "R" THEN <<t>>
                ELSE IF t[4] = <<>> THEN <<>>
                ELSE LET parts == [q \in DOMAIN t[4] |-> LeavesOf(t[4][q])] IN
                     LET RECURSIVE Cat(_)
                         Cat(q) == IF q > Len(parts) THEN <<>> ELSE parts[q] \o Cat(q + 1)
                     IN Cat(1)
-ValidNode(G, t) ==
-  IF t[1] = "T" THEN TRUE
-  ELSE /\ t[1] = "R"
-       /\ \E r \in RangeE(G.rules) : r.name = t[2] /\ \E a \in DOMAIN r.alts :
-             LET its == r.alts[a].body.items IN
-             /\ Len(its) = Len(t[4])
-             /\ \A q \in DOMAIN its : (its[q].k = "tok" /\ t[4][q][1] = "T" /\ t[4][q][2] = its[q].name)
-                                        \/ (its[q].k = "rule" /\ t[4][q][1] = "R" /\ t[4][q][2] = its[q].name)
-       /\ \A q \in DOMAIN t[4] : ValidNode(G, t[4][q])
+\* t is a derivation tree of rule `rn`: its label is the label of one of rn's alternatives (alias, else the rule
+\* name) and its children are, item by item, that alternative's symbols
+ValidNode(G, t, rn) ==
+  /\ t[1] = "R"
+  /\ \E r \in RangeE(G.rules) : r.name = rn /\ \E a \in DOMAIN r.alts :
+        LET its == r.alts[a].body.items IN
+        /\ t[2] = (IF r.alts[a].alias # "" THEN r.alts[a].alias ELSE r.name)
+        /\ Len(its) = Len(t[4])
+        /\ \A q \in DOMAIN its : IF its[q].k = "tok" THEN t[4][q][1] = "T" /\ t[4][q][2] = its[q].name
+                                   ELSE ValidNode(G, t[4][q], its[q].name)
 IsDerivOf(G, t, w) ==
-  /\ ValidNode(G, t) /\ t[1] = "R" /\ t[2] = G.start
+  /\ ValidNode(G, t, G.start)
   /\ LeavesOf(t) = [q \in 1..Len(w) |-> <<"T", w[q], q - 1, <<>>>>]
 
 RECURSIVE JudgeBnf(_, _, _, _)
@@ -73,6 +74,30 @@ JudgeBnf(G, exp, w, k) ==
        ELSE IF \E t \in Expand(o.tree) : ~IsDerivOf(G, t, w) THEN o.cfg \o ":tree-that-is-not-a-derivation"
        ELSE JudgeBnf(G, exp, w, k + 1)
 
+\* ---- C20: TreeForestTransformer on the forest of ambiguity='forest' ----
+\* o.tree: resolve_ambiguity=False result, o.one: resolve_ambiguity=True result, o.isamb: root.is_ambiguous
+RECURSIVE JudgeObs20(_, _, _, _)
+JudgeObs20(exp, trees, cyclic, k) ==
+  IF k > Len(exp) THEN "ok"
+  ELSE LET o == exp[k] IN
+       IF o.out = 2 THEN o.cfg \o ":hang-or-unexpected-exception"
+       ELSE IF o.out = 1 THEN (IF trees # {} THEN o.cfg \o ":rejected-sentence" ELSE JudgeObs20(exp, trees, cyclic, k + 1))
+       ELSE LET got == Expand(o.tree) IN
+            IF ~(got \subseteq trees) THEN o.cfg \o ":forest-tree-that-is-not-a-derivation"
+            ELSE IF got # trees THEN o.cfg \o ":derivation-missing-from-forest"
+            ELSE IF o.one \notin trees THEN o.cfg \o ":resolved-tree-is-not-a-derivation"
+            ELSE IF Cardinality(trees) = 1 /\ o.isamb THEN o.cfg \o ":is_ambiguous-on-single-derivation"
+            ELSE JudgeObs20(exp, trees, cyclic, k + 1)
+
+RECURSIVE JudgeBnf20(_, _, _, _)
+JudgeBnf20(G, exp, w, k) ==
+  IF k > Len(exp) THEN "ok"
+  ELSE LET o == exp[k] IN
+       IF o.out = 2 THEN o.cfg \o ":hang-or-unexpected-exception"
+       ELSE IF o.out = 1 THEN JudgeBnf20(G, exp, w, k + 1)
+       ELSE IF \E t \in Expand(o.tree) \cup {o.one} : ~IsDerivOf(G, t, w) THEN o.cfg \o ":forest-tree-that-is-not-a-derivation"
+       ELSE JudgeBnf20(G, exp, w, k + 1)
+
 Init == tid \in 1..NCases /\ ii = 0 /\ verdict = "ok"
 Next ==
   /\ ii < Len(Cases[tid].inputs)
@@ -80,7 +105,9 @@ Next ==
   /\ LET c == Cases[tid]
          inp == c.inputs[ii + 1]
          trees == TreesOfInput(c.G, inp.w)
-         v == IF Which = "C04" /\ c.cyclic THEN JudgeBnf(c.G, inp.exp, inp.w, 1)
+         v == IF Which = "C20" /\ c.cyclic THEN JudgeBnf20(c.G, inp.exp, inp.w, 1)
+              ELSE IF Which = "C20" THEN JudgeObs20(inp.exp, trees, c.cyclic, 1)
+              ELSE IF Which = "C04" /\ c.cyclic THEN JudgeBnf(c.G, inp.exp, inp.w, 1)
               ELSE IF Which = "C04" THEN JudgeObs04(inp.exp, trees, c.cyclic, 1)
               ELSE JudgeObs03(inp.obs, trees, trees # {}, 1)
      IN verdict' = Verdict(tid, ii + 1, v = "ok", v, IF c.cyclic THEN -1 ELSE Cardinality(trees))
